@@ -301,6 +301,7 @@ class PeriodicFinder:
         # The lattice vectors are added as possible spans if they are set as
         # periodic and they are shorter than the maximum cell size
         periodic_spans = system.get_cell()[system.get_pbc()]
+        periodic_axes = np.where(system.get_pbc())[0]
         periodic_span_lengths = np.linalg.norm(periodic_spans, axis=1)
         periodic_filter = periodic_span_lengths <= self.max_cell_size
         n_periodic_spans = periodic_filter.sum()
@@ -320,7 +321,7 @@ class PeriodicFinder:
                     per_adjacency_list_add = defaultdict(list)
                     per_adjacency_list_sub = defaultdict(list)
                     i_factor = np.array((0, 0, 0))
-                    i_factor[i_per_span] = 1
+                    i_factor[periodic_axes[i_per_span]] = 1
                     for i_neigh, neigh_factor in neighbour_nodes:
                         neigh_tuple = tuple(neigh_factor)
                         key = (i_neigh, neigh_tuple)
